@@ -375,6 +375,19 @@ def gen_filter(rnd, st, v=None):
             f['member_of'] = [_setrec([a])]
             f['forbidden'] = {}
             f['forbidden_aggs'] = {}
+    # a required trait all of whose holders also have the forbidden one (the intermediate
+    # selection is empty), together with an aggregate that has members
+    if v >= 22 and rnd.random() < 0.1:
+        allt = TRAITS + [SHARING]
+        holders = {t: {p for p in st['rp'] if t in st['traits'].get(p, {})} for t in allt}
+        pairs = [(t, x) for t in allt for x in allt if t != x and holders[t] and holders[t] <= holders[x]]
+        aggs = [a for a in AGGS if any(a in st['aggs'].get(p, {}) for p in st['rp'])]
+        if pairs and aggs:
+            t, x = rnd.choice(pairs)
+            f['required'] = [_setrec([t])]
+            f['forbidden'] = _setrec([x])
+            f['member_of'] = [_setrec([rnd.choice(aggs)])]
+            f['forbidden_aggs'] = {}
     if rnd.random() < 0.04 and v >= 18:
         f['required'].append(_setrec(['CUSTOM_T4']))     # unknown trait -> 400
     if rnd.random() < 0.04 and v >= 4:
